@@ -143,9 +143,18 @@ func (s *AScenario) configYAML(variant string) string {
 		extra = "  - type: addFields\n    fields:\n      extra2: v2\n"
 	case "incompatible":
 		// the orchestration keys change: must be rejected at reload
-		keys := "[host]"
-		if len(s.Keys) == 1 && s.Keys[0] == "host" {
-			keys = "[app]"
+		// (same number of keys in half of the scenarios: replaced or reordered; one key more or fewer in the others)
+		same := len(s.Clients)%2 == 0
+		keys := ""
+		switch {
+		case len(s.Keys) == 1 && same:
+			keys = "[pid]"
+		case len(s.Keys) == 1:
+			keys = "[app, pid]"
+		case same:
+			keys = "[" + strings.Join(append(append([]string{}, s.Keys[1:]...), s.Keys[0]), ", ") + "]"
+		default:
+			keys = "[" + strings.Join(s.Keys[:len(s.Keys)-1], ", ") + "]"
 		}
 		return strings.Replace(s.configYAML(""), "keys: ["+strings.Join(s.Keys, ", ")+"]\n  tag: "+s.Tag, "keys: "+keys+"\n  tag: fixed", 1)
 	case "invalid":
